@@ -152,6 +152,10 @@ fn rebinding_family() -> Vec<Ast> {
                     // and a free use outside everything
                     out.push(Ast::bin(op, binder(outer, i.clone()), x()));
                     out.push(Ast::bin(op, x(), binder(outer, Ast::bin(Bin::And, i.clone(), x()))));
+                    // a second name that is bound in an earlier operand and free in a later one
+                    let c = || Ast::var("c");
+                    out.push(binder(outer, binder(inner, Ast::bin(op, Ast::q(true, &["c"], c()), c()))));
+                    out.push(binder(outer, Ast::bin(op, binder(inner, Ast::q(false, &["c"], Ast::bin(Bin::Or, c(), x()))), c())));
                 }
             }
         }
